@@ -64,3 +64,36 @@ _core("C10", "The specification gives handle operations the meaning of the datab
       "through db.measurement(name), names present and absent, handles re-obtained after drops) are judged by TLC clause by clause, so a handle that sees or touches another measurement fails result/store.", "DESIGN.md section 5, C10")
 _core("C11", "Failing operations (non-Point at each position of insert_multiple, update without arguments, update callable raising or returning an invalid value on the k-th selected point) are "
       "actions of the specification with 'store unchanged' (insert_multiple: plus the stored prefix); TLC requires the raise, the unchanged projected contents, a consistent index, and judges all later calls.", "DESIGN.md section 5, C11")
+
+_IO_NOTE = ("Trusted: the run-time I/O proxies (harness/ioproxy.py) see every I/O call tinyflux.storages makes through open / NamedTemporaryFile / os / shutil; "
+            "the kernel-visible bytes read through a separate descriptor are what survives process death (no power-loss model); shutil.copy is observed as "
+            "open-truncate / half / rest / close; single faults; rows below the 8 KiB buffer; histories sampled, boundaries / call indices of each executed operation enumerated.")
+CHECKS["C04"] = dict(level="model_checking", technique="TLA+ specs TinyFlux.tla + CsvIO.tla; recorded executions with independent file decoding judged by TLC (clause 'file')",
+    text="CsvIO.tla states FileHoldsContents for the append / rewrite programs (TLC, both swap designs, flush on and off). Binding: histories with early-exit reads before appends run on CSV storage "
+         "across a covering array (thorough: all cells) of flush_on_insert x encoding {default, utf-8, utf-16, latin-1} x dialect {default, ';', QUOTE_ALL, quotechar} x compact/default prefixes "
+         "with CSV-hostile strings (delimiters, quotes, CR/LF, non-ASCII, reserved prefixes) and on files larger than the 8 KiB buffer; after every call (flush off: after close) the bytes decoded "
+         "by an independent reader and the contents seen by a fresh read-only TinyFlux must equal the specification's contents.",
+    note=_IO_NOTE + " The independent reader shares Python's csv module with the code (the row -> point layer is independent).", design_ref="DESIGN.md section 5, C04")
+CHECKS["C12"] = dict(level="fault_enumeration", technique="TLA+ CsvIO.tla model-checked with a crash between any two effects; recorded I/O boundaries of the real code judged by TLC (clause 'crash')",
+    text="TLC places a crash between any two effects of every operation program in CsvIO.tla (copy-based swap: consistent exactly outside the copy window; rename-based: consistent). "
+         "Binding: every I/O boundary of every operation in the sampled histories (incl. files > 8 KiB after early-exit reads) is snapshotted through the proxies; each snapshot is decoded by an "
+         "independent reader and TLC requires the old or the new contents (insert_multiple: old + prefix). Exhaustive over the boundaries of executed operations, sampled over histories.",
+    note=_IO_NOTE, design_ref="DESIGN.md section 5, C12")
+CHECKS["C13"] = dict(level="fault_enumeration", technique="OSError injected at every recorded I/O call index of every operation; outcomes judged by TLC (fault_* clauses of Trace_TinyFlux.tla)",
+    text="For every operation of the sampled histories the fault-free run yields the exact list of I/O calls; the history is re-run once per call index with OSError injected there (before the "
+         "effect; for flush/fsync/close also after it). TLC requires: the caller sees an OSError; the live object's own storage is old/new/old+prefix; every later read raises or equals the "
+         "specification's answer over that storage; after one more insert and close the file decodes to an allowed contents plus that insert.",
+    note=_IO_NOTE, design_ref="DESIGN.md section 5, C13")
+CHECKS["C14"] = dict(level="model_checking", technique="matrix of ill-typed values enumerated by TLC (MC_TinyFlux.BadCells) as transitions; paths replayed into tinyflux and judged by TLC",
+    text="The specification owns the matrix entry point x slot x kind (each kind also falsy; static or via callable; alone or next to a valid companion argument); TLC enumerates every cell as a "
+         "transition after 0-2 inserts followed by all() and count(); each path runs in the four configurations and TLC requires ValueError/TypeError, unchanged contents (the projection "
+         "type-checks every stored value through the theme) and well-typed reads afterwards. Random histories with callables returning invalid values are judged too.",
+    note=_CORE_NOTE + " Falsy static time/measurement arguments of update() mean 'argument absent' and are not generated.", design_ref="DESIGN.md section 5, C14")
+CHECKS["C15"] = dict(level="model_checking", technique="TLA+ TinyFlux.tla/CsvIO.tla; recorded executions with byte and directory observations judged by TLC (clauses 'unchanged', 'tmp')",
+    text="ReadsChangeNothing / NoTempLeft are TLC-checked on the design. Binding: read-heavy histories with no-op removes/updates, raising calls and access modes r / r+ / a / w+ run under the proxies; "
+         "TLC requires byte-identical files for reads, getters, iteration, reindex, no-match removes, no-change updates and forbidden writes (which must raise), and no new file in the private temp "
+         "directory or the database directory after any call, returned or raised.", note=_IO_NOTE, design_ref="DESIGN.md section 5, C15")
+CHECKS["C16"] = dict(level="model_checking", technique="TLA+ CsvIO.tla (AppendOnly, InsertCost); recorded I/O calls of inserts judged by TLC (clauses 'append', 'cost')",
+    text="AppendOnly and InsertCost are invariants of the insert program in CsvIO.tla. Binding: I/O calls of inserts recorded on databases of 0-3000 rows, in and out of time order, auto_index on/off, "
+         "after reads that left the file position mid-file; TLC requires only seek / write-at-end / flush / fsync / truncate-at-end, the old bytes as a prefix at every boundary, no read, a bounded "
+         "number of calls per point; the harness additionally requires equal call counts for small and large databases.", note=_IO_NOTE, design_ref="DESIGN.md section 5, C16")
